@@ -81,6 +81,19 @@ func (l rl) toList() v1.ResourceList {
 	if len(l) == 0 {
 		return nil
 	}
+	return l.list()
+}
+
+// toListFor: an empty list is a nil map for even queue ids and an empty non-nil map for odd ones (the
+// code - and the forked DeepEqual it uses - must not tell them apart; the model does not)
+func (l rl) toListFor(id int64) v1.ResourceList {
+	if len(l) == 0 && id%2 == 1 {
+		return v1.ResourceList{}
+	}
+	return l.toList()
+}
+
+func (l rl) list() v1.ResourceList {
 	out := v1.ResourceList{}
 	for _, kv := range l {
 		out[dimName[kv[0]]] = quantity(kv[0], kv[1])
@@ -191,7 +204,9 @@ func decRequest(r *tokReader) request {
 	return request{k, qspec{name: r.next(), alloc: r.next(), state: r.next()}}
 }
 
-type config struct{ maxDepth, allocCheck, rootProt int64 }
+// notTree: the generator built the initial set so that it is NOT a tree satisfying the invariant (law 108,
+// "the gate tree_okb Q0 holds", is demanded for every other history)
+type config struct{ maxDepth, allocCheck, rootProt, notTree int64 }
 
 type history struct {
 	cfg  config
@@ -200,7 +215,7 @@ type history struct {
 }
 
 func (h history) enc() []int64 {
-	out := []int64{h.cfg.maxDepth, h.cfg.allocCheck, h.cfg.rootProt, int64(len(h.q0))}
+	out := []int64{h.cfg.maxDepth, h.cfg.allocCheck, h.cfg.rootProt, h.cfg.notTree, int64(len(h.q0))}
 	for _, q := range h.q0 {
 		out = append(out, q.enc()...)
 	}
@@ -212,8 +227,11 @@ func (h history) enc() []int64 {
 }
 
 func decHistory(in []int64) history {
-	r := &tokReader{t: in}
-	h := history{cfg: config{r.next(), r.next(), r.next()}}
+	return decHistoryR(&tokReader{t: in})
+}
+
+func decHistoryR(r *tokReader) history {
+	h := history{cfg: config{r.next(), r.next(), r.next(), r.next()}}
 	n := int(r.next())
 	for i := 0; i < n; i++ {
 		h.q0 = append(h.q0, decQueue(r))
@@ -233,6 +251,7 @@ type world struct {
 	// set once an admitted request has closed a cycle of parent links (or given root a parent): the real code's
 	// recursions over such a lister need not terminate, so nothing more is run (verdict 98)
 	poisoned bool
+	dry      bool // validate only: an admitted request is not applied (concurrent admissions)
 	cfg      config
 	indexer  cache.Indexer
 	inf      cache.SharedIndexInformer
@@ -270,11 +289,11 @@ func buildQueue(q qspec) *schedulingv1beta1.Queue {
 		Spec: schedulingv1beta1.QueueSpec{
 			Weight:     1,
 			Parent:     qname(q.parent),
-			Capability: q.cap.toList(),
-			Deserved:   q.des.toList(),
+			Capability: q.cap.toListFor(q.name),
+			Deserved:   q.des.toListFor(q.name),
 		},
 	}
-	o.Spec.Guarantee.Resource = q.guar.toList()
+	o.Spec.Guarantee.Resource = q.guar.toListFor(q.name)
 	o.Status.State = stateName[q.state]
 	if q.alloc != 0 {
 		o.Status.Allocated = v1.ResourceList{v1.ResourcePods: *resource.NewQuantity(q.alloc, resource.DecimalSI)}
@@ -424,6 +443,27 @@ func (w *world) cyclic() bool {
 	return false
 }
 
+// applyReq: what the API server's storage does with an admitted request at the moment it is applied
+func (w *world) applyReq(r request) {
+	cur := w.get(r.q.name)
+	switch r.kind {
+	case kCreate:
+		if cur == nil { // else: AlreadyExists from storage, nothing changes
+			w.indexer.Add(buildQueue(r.q))
+		}
+	case kUpdate:
+		if cur != nil {
+			obj := buildQueue(r.q)
+			obj.Status = *cur.Status.DeepCopy()
+			w.indexer.Update(obj)
+		}
+	case kDelete:
+		if cur != nil {
+			w.indexer.Delete(cur)
+		}
+	}
+}
+
 func (w *world) step1(r request) int64 {
 	old := w.get(r.q.name)
 	if r.kind == kEnv {
@@ -474,6 +514,10 @@ func (w *world) step1(r request) int64 {
 	ar := admissionv1.AdmissionReview{Request: req}
 	before := w.dump()
 	va := w.call(ar, true)
+	if r.kind == kDelete {
+		// a real API server sends no Object for DELETE (the repo's unit tests send one): second call without
+		req.Object = runtime.RawExtension{}
+	}
 	vb := w.call(ar, false)
 	if va != vb {
 		panic(fmt.Sprintf("GetQueuesByParent: informer index and lister fallback disagree (%d vs %d)", va, vb))
@@ -481,19 +525,8 @@ func (w *world) step1(r request) int64 {
 	if fmt.Sprint(before) != fmt.Sprint(w.dump()) {
 		panic("the webhook modified an object held by the lister")
 	}
-	if va == vAllowed {
-		switch r.kind {
-		case kCreate:
-			if old == nil { // else: AlreadyExists from storage, nothing changes
-				w.indexer.Add(obj)
-			}
-		case kUpdate:
-			w.indexer.Update(obj)
-		case kDelete:
-			if old != nil {
-				w.indexer.Delete(old)
-			}
-		}
+	if va == vAllowed && !w.dry {
+		w.applyReq(r)
 	}
 	return va
 }
@@ -622,7 +655,43 @@ const tagCapacity = 901
 const tagFinal = 900
 
 // sel 1: a history.  Output: per request  tag(i) verdict ; then tag(900) final queue set
+// sel 2 / 3: two requests validated by the real webhook against the SAME queue set (the one the
+// history produced), as with concurrent admissions or a lagging lister; then both applied
+func runPair(sel int, in []int64) []int64 {
+	tr := &tokReader{t: in}
+	h := decHistoryR(tr)
+	r1, r2 := decRequest(tr), decRequest(tr)
+	w := newWorld(h.cfg, h.q0)
+	for _, r := range h.reqs {
+		w.step(r)
+	}
+	if w.poisoned {
+		panic("pair on a cyclic queue set")
+	}
+	w.dry = true
+	v1, v2 := w.step1(r1), w.step1(r2)
+	w.dry = false
+	if sel == 3 {
+		// the fixed scenarios: before a tree, afterwards not (answered by the extracted checker)
+		return []int64{vh.B(v1 == vAllowed && v2 == vAllowed), 1, 0}
+	}
+	if v1 == vAllowed {
+		w.applyReq(r1)
+	}
+	if v2 == vAllowed {
+		w.applyReq(r2)
+	}
+	out := append(tag(1), v1)
+	out = append(out, tag(2)...)
+	out = append(out, v2)
+	out = append(out, tag(tagFinal)...)
+	return append(out, w.dump()...)
+}
+
 func run(sel int, in []int64) []int64 {
+	if sel == 2 || sel == 3 {
+		return runPair(sel, in)
+	}
 	if sel != 1 {
 		panic("unknown selector")
 	}
@@ -648,6 +717,9 @@ func run(sel int, in []int64) []int64 {
 // nearest ancestor, 105 delete guard as the code implements it, 106 the capacity plugin accepts the
 // final hierarchy, 107 no admitted DELETE of a queue with allocated pods (full strength).
 func laws(sel int, in, got []int64, law func(lsel int, lin []int64, sig string)) {
+	if sel != 1 {
+		return // concurrent pairs break the invariant by construction: no law is demanded of them
+	}
 	h := decHistory(in)
 	lin := append([]int64{}, in...)
 	lin = append(lin, int64(len(h.reqs)))
@@ -694,6 +766,7 @@ func laws(sel int, in, got []int64, law func(lsel int, lin []int64, sig string))
 		}
 	}
 	law(107, lin, sig)
+	law(108, lin, "")
 }
 
 func main() {
